@@ -13,6 +13,7 @@ import numpy as np
 
 import common as C
 import fuzzylite as fl
+from props import c04
 
 sys.set_int_max_str_digits(0)  # exact results of long sums have thousands of digits
 
@@ -195,6 +196,22 @@ def bisector_ok(v, exact, X, classes):
     return any(C.close(v, c) for c in cands), "classes"
 
 
+def documented_set(case, row, x):
+    """mu(x) = (+)_i d_i (x) mu_i(x) with the documented norm formulas (exact, on the float term memberships)"""
+    y = [Fr(0)] * len(x)
+    for i, a in enumerate(case["acts"]):
+        ps = [fl_num(p) for p in a["params"]]
+        term = getattr(fl, a["cls"])(f"t{i}", *ps, height=float(a["h"]))
+        with np.errstate(all="ignore"):
+            mu = np.broadcast_to(np.asarray(term.membership(x), dtype=float), x.shape)
+        d = a["deg"][row] if isinstance(a["deg"], list) else a["deg"]
+        d = fl_num(d)
+        d = Fr(0) if (d != d or d == -math.inf) else Fr(1) if d == math.inf else Fr(d)
+        T, S = c04.T[a["impl"]], c04.S[case["agg"]]
+        y = [S(u, T(d, Fr(float(m)))) for u, m in zip(y, mu)]
+    return y
+
+
 # ------------------------------------------------------------------------------------------ property oracle
 
 def key(case):
@@ -232,6 +249,16 @@ def oracle(case):
                 return False, f"{n}: expected one value for one set, got {res[n]!r}"
         if np.any(y < 0) or not np.all(np.isfinite(y)):
             continue
+        if case["acts"] and not fragile(case, x):
+            try:
+                doc = documented_set(case, b if is_batch(case) else None, x)
+            except ZeroDivisionError:
+                doc = None
+            if doc is not None:
+                for j, (u, w) in enumerate(zip(y, doc)):
+                    if not C.close(float(u), w):
+                        return False, (f"membership of the aggregated set at sample point {j} is {float(u)!r}, the documented "
+                                       f"aggregation of the implied terms gives {float(w)!r} (set {b})")
         cf = closed_forms(x, y)
         X = frs(x)
         for n in DEFUZZ:
